@@ -661,11 +661,46 @@ fn bed_file_case(dir: &Path, list: &[BedRec], cc: &mut CaseCtx) {
         let model_ok = items.len() == list.len() && items.iter().zip(list).all(|(g, w)| g.as_ref().map(|g| from_bed(g) == *w && bed_getter_mismatch(g, w).is_none()).unwrap_or(false));
         if items != mem_items || !model_ok {
             cc.violation("C13/bed/from_file/records-differ", format!("file {:?} read as {:?}, Reader::new gives {:?}, written {:?}", show(&disk), items, mem_items, list));
+            return;
+        }
+        // the same file with comment lines: from_file must skip them exactly like Reader::new
+        let commented = with_comment_lines(&mem);
+        let path2 = dir.join("case-commented.bed");
+        if let Err(e) = std::fs::write(&path2, &commented) {
+            panic!("cannot write scratch file {:?}: {}", path2, e);
+        }
+        let want: Vec<Result<bed::Record, String>> = bed::Reader::new(&commented[..]).records().take(list.len() + 6).map(|x| x.map_err(|e| e.to_string())).collect();
+        let got: Vec<Result<bed::Record, String>> = match bed::Reader::from_file(&path2) {
+            Err(e) => {
+                cc.violation("C13/bed/from_file/error", format!("{:?}: {:#}", path2, e));
+                return;
+            }
+            Ok(mut rd) => rd.records().take(list.len() + 6).map(|x| x.map_err(|e| e.to_string())).collect(),
+        };
+        if got != want || got != mem_items {
+            cc.violation("C13/bed/from_file/comment-lines-not-skipped", format!("file {:?} read as {:?}, Reader::new gives {:?}, without comments {:?}", show(&commented), got, want, mem_items));
         }
     });
     if let Err(msg) = r {
         cc.violation("C13/bed/file/panic", msg);
     }
+}
+
+/// `bytes` (complete lines) with '#' comment lines before the first line, after every second line
+/// and at the end
+fn with_comment_lines(bytes: &[u8]) -> Vec<u8> {
+    let mut out = b"#leading comment\n".to_vec();
+    for (i, line) in bytes.split_inclusive(|&b| b == b'\n').enumerate() {
+        out.extend_from_slice(line);
+        if !line.ends_with(b"\n") {
+            out.push(b'\n');
+        }
+        if i % 2 == 0 {
+            out.extend_from_slice(b"# between\tlines\n");
+        }
+    }
+    out.extend_from_slice(b"#trailing\n");
+    out
 }
 
 /// a path that does not exist is an error of the constructor, for all four file constructors
@@ -1419,6 +1454,24 @@ fn gff_file_case(dir: &Path, list: &[GffRec], d: Dialect, cc: &mut CaseCtx) {
             && items.iter().zip(list).all(|(g, w)| g.as_ref().map(|g| typed_fields(g) == typed_fields(&to_gff(w)) && attrs_of(g) == attr_model(&w.attrs) && gff_getter_mismatch(g, w).is_none()).unwrap_or(false));
         if items != mem_items || !model_ok {
             cc.violation(format!("C13/{}/from_file/records-differ", dn), format!("file {:?} read as {:?}, Reader::new gives {:?}, written {:?}", show(&disk), items, mem_items, list));
+            return;
+        }
+        // the same file with comment lines
+        let commented = with_comment_lines(&mem);
+        let path2 = dir.join("case-commented.gff");
+        if let Err(e) = std::fs::write(&path2, &commented) {
+            panic!("cannot write scratch file {:?}: {}", path2, e);
+        }
+        let want = read_gff(&commented, d, list.len() + 6);
+        let got: Vec<Result<gff::Record, String>> = match gff::Reader::from_file(&path2, d.ty()) {
+            Err(e) => {
+                cc.violation(format!("C13/{}/from_file/error", dn), format!("{:?}: {:#}", path2, e));
+                return;
+            }
+            Ok(mut rd) => rd.records().take(list.len() + 6).map(|x| x.map_err(|e| e.to_string())).collect(),
+        };
+        if got != want || got != mem_items {
+            cc.violation(format!("C13/{}/from_file/comment-lines-not-skipped", dn), format!("file {:?} read as {:?}, Reader::new gives {:?}, without comments {:?}", show(&commented), got, want, mem_items));
         }
     });
     if let Err(msg) = r {
@@ -1746,7 +1799,40 @@ fn gff_records(d: Dialect) -> Vec<GffRec> {
             }
         }
     }
+    // wide attribute columns: N pairs over few keys, values in an order that no sort reproduces
+    // (library sorts switch algorithm with the slice length; per-key value order must survive)
+    for (wi, m) in wide_attribute_maps(d).into_iter().enumerate() {
+        v.push(GffRec {
+            seqname: "chr1".into(),
+            source: "src".into(),
+            feature: "wide".into(),
+            start: 3,
+            end: 9,
+            score: [".", "5"][wi % 2].into(),
+            strand: ["+", "-", "."][wi % 3].into(),
+            phase: [None, Some(0u8), Some(2)][wi % 3],
+            attrs: m,
+        });
+    }
     v
+}
+
+fn wide_attribute_maps(d: Dialect) -> Vec<Vec<(String, String)>> {
+    let keys: Vec<&str> = match d.gff3_like() {
+        true => vec!["ID", "Note", "k 2", "x", "Parent"],
+        false => vec!["ID", "Note", "gene_id", "x", "transcript_id"],
+    };
+    let mut maps = vec![];
+    for &n in &[17usize, 20, 21, 31, 32, 33, 34, 48, 64, 65, 100, 129] {
+        // values: a permutation of 0..n that is neither ascending nor descending, rendered with
+        // varying width so that lexicographic and numeric order differ as well
+        let val = |j: usize| format!("w{}", (j * 7 + 3) % n.max(1) * if j % 2 == 0 { 1 } else { 11 });
+        // (a) round robin over the keys, (b) everything under one key, (c) two keys, long runs
+        maps.push((0..n).map(|j| (keys[j % keys.len()].to_string(), val(j))).collect());
+        maps.push((0..n).map(|j| (keys[1].to_string(), val(j))).collect());
+        maps.push((0..n).map(|j| (keys[if (j / 9) % 2 == 0 { 3 } else { 0 }].to_string(), val(j))).collect());
+    }
+    maps
 }
 
 fn gff_unit(shard: usize, ctx: &mut Ctx) {
